@@ -59,98 +59,138 @@ def ob_pred(label, bad, bad_tol=None, step=None):
 
 
 # ----------------------------------------------------------------------------------------------
-def to_float_stream(stream_vals):
+# Operation scripts: the same list of ops drives the MIR executor (symbolic or concrete values)
+# and the native replay binary (concrete values).
+#   ('new', slot, name, periods, mult) ('default', slot, name) ('feed', slot, value) ('reset', slot)
+#   ('clone', src, dst)
+def ops_stream(name, periods, mult, stream, slot='a'):
+    return [('new', slot, name, tuple(periods), mult)] + [('feed', slot, v) for v in stream]
+
+
+def run_ops_r(ex, ops):
+    """-> list aligned with ops: output list for 'feed', None otherwise"""
+    insts, outs = {}, []
+    for op in ops:
+        k = op[0]
+        if k == 'new':
+            insts[op[1]] = RInst.create(ex, op[2], op[3], op[4]); outs.append(None)
+        elif k == 'default':
+            insts[op[1]] = RInst.default(ex, op[2]); outs.append(None)
+        elif k == 'feed':
+            outs.append(insts[op[1]].feed(op[2]))
+        elif k == 'reset':
+            insts[op[1]].reset(); outs.append(None)
+        elif k == 'clone':
+            insts[op[2]] = insts[op[1]].clone(); outs.append(None)
+        else:
+            raise ValueError(op)
+    return outs, insts
+
+
+def _cv(m, v, as_float):
+    if isinstance(v, (tuple, list)): return tuple(_cv(m, x, as_float) for x in v)
+    if v is None: return None
+    x = rcore.model_val(m, v) if m is not None else v
+    if isinstance(x, bool) or (isinstance(x, int) and not as_float): return x
+    return float(x) if as_float else x
+
+
+def concretize_ops(ops, m):
+    """replace symbolic values by their model values; stream values and multipliers become python floats"""
     out = []
-    for v in stream_vals:
-        if isinstance(v, (tuple, list)): out.append(tuple(float(x) for x in v))
-        else: out.append(float(v))
+    for op in ops:
+        if op[0] == 'new':
+            per = tuple(int(rcore.model_val(m, p)) if is_sym(p) else int(p) for p in op[3])
+            mult = None if op[4] is None else float(rcore.model_val(m, op[4]) if is_sym(op[4]) else op[4])
+            out.append(('new', op[1], op[2], per, mult))
+        elif op[0] == 'feed':
+            out.append(('feed', op[1], _cv(m, op[2], True)))
+        else:
+            out.append(op)
     return out
 
 
-def frac_stream(fs):
-    return [tuple(F(x) for x in v) if isinstance(v, tuple) else F(v) for v in fs]
-
-
-def model_stream(m, stream):
+def ops_exact(ops):
+    """float ops -> the same ops with exact Fractions (for the oracle)"""
     out = []
-    for v in stream:
-        if isinstance(v, (tuple, list)): out.append(tuple(rcore.model_val(m, x) for x in v))
-        else: out.append(rcore.model_val(m, v))
+    for op in ops:
+        if op[0] == 'new':
+            out.append(('new', op[1], op[2], op[3], None if op[4] is None else F(op[4])))
+        elif op[0] == 'feed':
+            v = op[2]
+            out.append(('feed', op[1], tuple(F(x) for x in v) if isinstance(v, tuple) else F(v)))
+        else:
+            out.append(op)
     return out
 
 
-def stream_vars(stream):
+def ops_lines(ops):
+    lines = []
+    for op in ops:
+        k = op[0]
+        if k == 'new': lines.append(native.new_cmd(op[1], op[2], op[3], op[4]))
+        elif k == 'default': lines.append('default %s %s' % (op[1], op[2]))
+        elif k == 'feed': lines.append(native.feed_cmd(op[1], op[2]))
+        elif k == 'reset': lines.append('reset %s' % op[1])
+        elif k == 'clone': lines.append('clone %s %s' % (op[1], op[2]))
+    return lines
+
+
+def run_ops_native(ops, profile='dev'):
+    lines = ops_lines(ops)
+    rep = native.run_script(lines, profile)
+    outs = []
+    for op, r in zip(ops, rep):
+        if op[0] == 'feed': outs.append(r[1] if r[0] == 'out' else r[0])
+        elif op[0] == 'new' and r[0] != 'ok': outs.append('ctor:' + ' '.join(map(str, r)))
+        elif r[0] == 'panic': outs.append('panic')
+        else: outs.append(None)
+    return lines, outs
+
+
+def ops_vars(ops):
     xs = []
-    for v in stream:
-        if isinstance(v, (tuple, list)): xs += [x for x in v if is_sym(x)]
-        elif is_sym(v): xs.append(v)
+    def add(v):
+        if isinstance(v, (tuple, list)):
+            for x in v: add(x)
+        elif is_sym(v) and z3.is_real(v): xs.append(v)
+    for op in ops:
+        if op[0] == 'feed': add(op[2])
+        elif op[0] == 'new' and op[4] is not None: add(op[4])
     return xs
 
 
-def finite(outs):
-    import math
-    return all(isinstance(x, float) and math.isfinite(x) for o in outs if isinstance(o, list) for x in o)
+def feeds(ops, outs, slot=None):
+    """[(value, output)] of the feed ops (of one slot)"""
+    return [(op[2], o) for op, o in zip(ops, outs) if op[0] == 'feed' and (slot is None or op[1] == slot)]
 
 
-class Scenario:
-    """A scenario = how to drive instances (symbolically in R, natively in the replay binary) plus
-    the obligations relating outputs and inputs.  Subclasses/fields:
-       name, periods, mult
-       script(stream) -> list of ops understood by both drivers
-       obligations(stream, outs, params) -> [Ob]   (generic numbers)
-    The default script is: construct, feed every stream element, collect outputs."""
-
-    def __init__(s, name, periods=(), mult=None, obligations=None, label=None):
-        s.name, s.periods, s.mult = name, tuple(periods), mult
-        s.obl = obligations
-        s.label = label or '%s(%s%s)' % (name, ','.join(map(str, periods)), '' if mult is None else ',m')
-
-    # --- symbolic run on the MIR
-    def run_r(s, ex, stream, mult=None):
-        inst = RInst.create(ex, s.name, s.periods, s.mult if mult is None else mult)
-        return [inst.feed(v) for v in stream]
-
-    # --- native run; returns list of output lists (floats) or raises
-    def native_lines(s, fstream, fmult=None):
-        return [native.new_cmd('a', s.name, s.periods, fmult)] + [native.feed_cmd('a', v) for v in fstream]
-
-    def run_native(s, fstream, fmult=None, profile='dev'):
-        lines = s.native_lines(fstream, fmult)
-        rep = native.run_script(lines, profile)
-        if rep[0][0] != 'ok': return lines, None
-        outs = []
-        for r in rep[1:]:
-            outs.append(r[1] if r[0] == 'out' else r[0])
-        return lines, outs
-
-
-def confirm_native(sc, fstream, fmult, obligations_fn, profiles=('dev', 'release')):
+def confirm_native(ops_f, obligations_fn, profiles=('dev', 'release')):
     """run natively, evaluate the obligations with exact rationals; -> (violated labels, lines, detail)"""
     import math
     for prof in profiles:
-        lines, outs = sc.run_native(fstream, fmult, prof)
-        if outs is None: return [], lines, 'constructor failed natively'
+        lines, outs = run_ops_native(ops_f, prof)
+        if any(isinstance(o, str) and o.startswith('ctor:') for o in outs): return [], lines, 'constructor failed natively'
         if any(o == 'panic' for o in outs):
             return ['panic'], lines, 'native panic (%s profile)' % prof
-        flat_ok = all(isinstance(o, list) and all(math.isfinite(x) for x in o) for o in outs)
-        if not flat_ok:
-            return ['non-finite'], lines, 'native output is NaN/inf: %r (%s profile)' % (outs, prof)
-        fouts = [[F(x) for x in o] for o in outs]
-        obs = obligations_fn(frac_stream(fstream), fouts, None if fmult is None else F(fmult))
+        if not all(o is None or (isinstance(o, list) and all(math.isfinite(x) for x in o)) for o in outs):
+            return ['non-finite'], lines, 'native output is NaN/inf: %r (%s profile)' % ([o for o in outs if o is not None], prof)
+        fouts = [None if o is None else [F(x) for x in o] for o in outs]
+        obs = obligations_fn(ops_exact(ops_f), fouts)
         bad = [o.label for o in obs if o.bad_tol]
         if bad:
-            return bad, lines, 'native (%s): inputs=%r outputs=%r violate %s' % (prof, fstream, outs, bad[:4])
+            return bad, lines, 'native (%s): ops=%r outputs=%r violate %s' % (
+                prof, [op[1:] if op[0] != 'feed' else op[2] for op in ops_f], [o for o in outs if o is not None], bad[:4])
     return [], lines, ''
 
 
-def discharge(sc, ex, stream, outs, obligations, assumptions, seed=0, timeout_s=60, mult_var=None,
-              obligations_fn=None, family=None, bounds=None, witness_fn=None, stats=None, required=True):
+def discharge(ex, ops, outs, obligations, assumptions, obligations_fn=None, seed=0, timeout_s=60,
+              family='?', bounds=None, witness_fn=None, stats=None, int_vars=()):
     """decide all obligations; returns a family result"""
     st = stats or rcore.Stats()
-    family = family or sc.label
     assume = list(assumptions) + list(ex.defs) + list(ex.nopanic)
-    xs = stream_vars(stream) + ([mult_var] if mult_var is not None and is_sym(mult_var) else [])
-    res = dict(bounds=bounds, obligations=len(obligations), discharged=0, symbolic_inputs=len(xs),
+    xs = ops_vars(ops)
+    res = dict(bounds=bounds, obligations=len(obligations), discharged=0, symbolic_inputs=len(xs) + len(int_vars),
                functions=sorted(ex.called), lib_models=sorted(ex.lib_called), stats=None, witness=None)
     live = [o for o in obligations if is_sym(o.bad) or o.bad is True]
     res['discharged'] = len(obligations) - len(live)
@@ -160,11 +200,10 @@ def discharge(sc, ex, stream, outs, obligations, assumptions, seed=0, timeout_s=
         for mm in models:
             if mm is None or obligations_fn is None: continue
             try:
-                fstream = to_float_stream(model_stream(mm, stream))
-                fmult = float(rcore.model_val(mm, mult_var)) if mult_var is not None else (None if sc.mult is None else float(sc.mult))
+                ops_f = concretize_ops(ops, mm)
             except (ValueError, OverflowError):
                 continue
-            bad, lines, why = confirm_native(sc, fstream, fmult, obligations_fn)
+            bad, lines, why = confirm_native(ops_f, obligations_fn)
             if bad: return ('%s: %s' % (label, why), lines)
         return None
 
@@ -209,22 +248,25 @@ def discharge(sc, ex, stream, outs, obligations, assumptions, seed=0, timeout_s=
     # vacuity witness: a perturbed oracle must be refutable
     if witness_fn is not None and status == 'ok':
         wbad = witness_fn()
-        r, _ = rcore.solve(st, assume, wbad, min(timeout_s, 30), seed, stages=(2,))
-        res['witness'] = 'alive' if r == 'sat' else 'dead'
+        alive = rcore.witness_sat(st, assume, wbad, xs, int_vars, seed)
+        r = 'sat' if alive else 'not sat'
+        res['witness'] = 'alive' if alive else 'dead'
         if r != 'sat':
             status, detail = 'undecided', 'vacuity witness not satisfiable (%s): family may be vacuous' % r
     res['stats'] = st.as_dict()
-    res['sample'] = {'inputs': [str(v) for v in stream[:3]], 'output_term': str(outs[-1][0])[:200] if outs and outs[-1] else '',
+    fo = [o for o in outs if o is not None]
+    res['sample'] = {'ops': [str(op)[:120] for op in ops[:4]], 'last_output_term': str(fo[-1][0])[:240] if fo else '',
                      'obligation': obligations[-1].label if obligations else ''}
     return fam_result(family, 'R', status, detail=detail, replay=replay, **res)
 
 
-def validate_translator(mir, scenarios, seed, n_streams=2, length=9):
-    """concrete rational streams through R (concrete mode) and the natively compiled crate"""
+def validate_translator(mir, specs, seed, n_streams=2, length=9):
+    """concrete rational streams through R (concrete mode) and the natively compiled crate;
+    specs: list of (name, periods, mult or None)"""
     rnd = random.Random(seed * 7919 + 13)
     count, problems = 0, []
-    for sc in scenarios:
-        d = IND[sc.name]
+    for (name, periods, mult) in specs:
+        d = IND[name]
         for mode in (['scalar'] if d['scalar'] else []) + ['bar']:
             for _ in range(n_streams):
                 stream = []
@@ -235,18 +277,20 @@ def validate_translator(mir, scenarios, seed, n_streams=2, length=9):
                         c = l + (h - l) * F(rnd.randint(0, 4), 4)
                         stream.append((F(rnd.randint(1, 400), 8), h, l, c, F(rnd.randint(1, 4000), 8)))
                 ex = Executor(mir)
-                mult = None if sc.mult is None else F(rnd.randint(0, 12), 4)
+                m = None if mult is None else F(rnd.randint(0, 12), 4)
+                ops = ops_stream(name, periods, m, stream)
                 try:
-                    outs = sc.run_r(ex, stream, mult)
+                    outs, _ = run_ops_r(ex, ops)
                 except PathDead:
                     continue                     # e.g. 0/0 on a tie: not a translator question
-                lines, nat = sc.run_native(to_float_stream(stream), None if mult is None else float(mult))
+                lines, nat = run_ops_native(concretize_ops(ops, None))
                 count += 1
-                for o, no in zip(outs, nat or []):
+                for o, no in zip(outs, nat):
+                    if o is None: continue
                     for a, b in zip(o, no if isinstance(no, list) else []):
                         if is_sym(a):
                             s_ = z3.Solver(); s_.add(*ex.defs); s_.check()
                             a = rcore.model_val(s_.model(), a)
                         if abs(float(a) - b) > 1e-9 * max(1.0, abs(b)):
-                            problems.append('%s %s: R=%r native=%r' % (sc.label, mode, float(a), b))
+                            problems.append('%s %s: R=%r native=%r' % (name, mode, float(a), b))
     return count, problems
